@@ -2,6 +2,7 @@ import BU.Gen.Codec
 import BU.Crypto.Secp256k1
 import BU.Proofs.KeyLemmas
 import BU.Proofs.LoopLemmas
+import BU.Model.Schnorr
 /-! Proofs for `BU/Properties/C20_Gen.lean`: the *generated* curve arithmetic of `bitcoinutils/schnorr.py` (`point_add`,
 `point_mul`, `lift_x`, `has_even_y` — Python ints, `pow(b, e, p)`, `None | (x, y)` points, a 256-step loop) computes on points with
 natural coordinates exactly what `Secp.add / mul / liftX` compute — the functions about which the group law
@@ -238,5 +239,199 @@ theorem gen_lift_x (x : Nat) : Gen.schnorr_lift_x (x : Int) = .ok (castP (Secp.l
       · have h1 : y % 2 = 1 := by omega
         have hsub : ((p : Nat) : Int) - (y : Int) = ((p - y : Nat) : Int) := by omega
         simp [hev, h1, hsub]
+
+/-! ### BIP340 signing and verification -/
+section bip340
+open Model Spec
+
+theorem n_pos : 0 < Secp.n := by decide
+theorem nI : (115792089237316195423570985008687907852837564279074904382605163141518161494337 : Int) = ((Secp.n : Nat) : Int) := rfl
+theorem GI : (some ((55066263022277343669578718895168534326250603453777594175500187360389116729240 : Int),
+    (32670510020758816978083085130507043184471273380659243275938904335757337482424 : Int)) : Option (Int × Int)) = castP Secp.G := rfl
+
+theorem tag_challenge : ([0x42, 0x49, 0x50, 0x30, 0x33, 0x34, 0x30, 0x2f, 0x63, 0x68, 0x61, 0x6c, 0x6c, 0x65, 0x6e, 0x67, 0x65] : Bytes)
+    = "BIP0340/challenge".toUTF8.toList := by decide +kernel
+theorem tag_aux : ([0x42, 0x49, 0x50, 0x30, 0x33, 0x34, 0x30, 0x2f, 0x61, 0x75, 0x78] : Bytes) = "BIP0340/aux".toUTF8.toList := by decide +kernel
+theorem tag_nonce : ([0x42, 0x49, 0x50, 0x30, 0x33, 0x34, 0x30, 0x2f, 0x6e, 0x6f, 0x6e, 0x63, 0x65] : Bytes)
+    = "BIP0340/nonce".toUTF8.toList := by decide +kernel
+
+theorem gen_tagged (sha256 : Bytes → Bytes) (tag : String) (d : Bytes) :
+    Gen.schnorr_tagged_hash sha256 tag.toUTF8.toList d = .ok (taggedHash sha256 tag d) := rfl
+
+theorem gen_int_from_bytes (b : Bytes) : Gen.schnorr_int_from_bytes b = .ok ((ofBE b : Nat) : Int) := rfl
+theorem gen_bytes_from_int (x : Nat) : Gen.schnorr_bytes_from_int (x : Int) = bytesFromInt x := by
+  unfold Gen.schnorr_bytes_from_int bytesFromInt
+  cases Py.toBytes (x : Int) 32 Order.big <;> rfl
+theorem gen_xor (a b : Bytes) : Gen.schnorr_xor_bytes a b = .ok (schnorrXor a b) := rfl
+theorem gen_bytes_from_point (x y : Nat) : Gen.schnorr_bytes_from_point (castP (some (x, y))) = bytesFromInt x := by
+  unfold Gen.schnorr_bytes_from_point
+  simp only [castP_some, Py.ptX, ok_bind]
+  rw [gen_bytes_from_int]
+
+theorem len_ne (b : Bytes) (k : Nat) : ((Py.len b != ((k : Nat) : Int)) = true) ↔ b.length ≠ k := by
+  unfold Py.len
+  simp only [bne_iff_ne, ne_eq]
+  constructor <;> intro h <;> omega
+
+/-- the join-point shape of `if c: raise E` followed by the rest of a function -/
+theorem jp_if {α : Type} (c : Bool) (e : PyErr) (k : Unit → Except PyErr α) :
+    (have __do_jp := k
+     if c = true then (do let __r ← (throw e : Except PyErr Unit); __do_jp __r) else __do_jp ()) =
+      if c = true then .error e else k () := by
+  cases c <;> rfl
+
+theorem jp_ifP {α : Type} (p : Prop) [Decidable p] (e : PyErr) (k : Unit → Except PyErr α) :
+    (have __do_jp := k
+     if p then (do let __r ← (throw e : Except PyErr Unit); __do_jp __r) else __do_jp ()) =
+      if p then .error e else k () := by
+  by_cases h : p <;> simp [h] <;> rfl
+
+theorem gen_schnorr_verify (sha256 : Bytes → Bytes) (msg pk sig : Bytes) :
+    Gen.schnorr_verify sha256 msg pk sig = schnorrVerify sha256 msg pk sig := by
+  have hn := n_pos
+  unfold Gen.schnorr_verify schnorrVerify
+  rw [jp_if, jp_if, jp_if, jp_ifP, jp_ifP, jp_ifP]
+  have l1 : ((Py.len msg != (32 : Int)) = true) ↔ msg.length ≠ 32 := len_ne msg 32
+  have l2 : ((Py.len pk != (32 : Int)) = true) ↔ pk.length ≠ 32 := len_ne pk 32
+  have l3 : ((Py.len sig != (64 : Int)) = true) ↔ sig.length ≠ 64 := len_ne sig 64
+  by_cases h1 : msg.length ≠ 32
+  · rw [if_pos (l1.2 h1), if_pos h1]
+  rw [if_neg (fun h => h1 (l1.1 h)), if_neg h1]
+  by_cases h2 : pk.length ≠ 32
+  · rw [if_pos (l2.2 h2), if_pos h2]
+  rw [if_neg (fun h => h2 (l2.1 h)), if_neg h2]
+  by_cases h3 : sig.length ≠ 64
+  · rw [if_pos (l3.2 h3), if_pos h3]
+  rw [if_neg (fun h => h3 (l3.1 h)), if_neg h3]
+  simp only [gen_int_from_bytes, ok_bind, gen_lift_x]
+  generalize ofBE (slice sig 0 32) = r
+  generalize ofBE (slice sig 32 64) = s
+  generalize liftX (ofBE pk) = P
+  rw [pI, nI, GI, tag_challenge, gen_tagged, ok_bind]
+  generalize ofBE (taggedHash sha256 "BIP0340/challenge" (slice sig 0 32 ++ pk ++ msg)) = h
+  have hc : (((castP P).isNone || decide ((r : Int) ≥ ((p : Nat) : Int)) || decide ((s : Int) ≥ ((n : Nat) : Int))) = true)
+      ↔ (Option.isNone P = true ∨ r ≥ p ∨ s ≥ n) := by
+    cases P <;> simp [castP]
+  by_cases hcond : Option.isNone P = true ∨ r ≥ p ∨ s ≥ n
+  · rw [if_pos (hc.2 hcond), if_pos hcond]
+  rw [if_neg (fun hh => hcond (hc.1 hh)), if_neg hcond]
+  have he : ((n : Nat) : Int) - ((h : Nat) : Int) % ((n : Nat) : Int) = ((n - h % n : Nat) : Int) := by
+    have := Nat.mod_lt h hn
+    rw [← Int.natCast_emod]
+    omega
+  rw [he, gen_point_mul, ok_bind, gen_point_mul, ok_bind, gen_point_add, ok_bind]
+  generalize add (mul G s) (mul P (n - h % n)) = R
+  cases R with
+  | none => rfl
+  | some q =>
+    obtain ⟨x, y⟩ := q
+    simp only [castP_some, Option.isNone_some, Bool.false_eq_true, if_false]
+    rw [show (some ((x : Int), (y : Int)) : Option (Int × Int)) = castP (some (x, y)) from rfl, gen_has_even_y]
+    simp only [ok_bind, pure, Except.pure, castP_some, Py.ptX]
+    by_cases hy : y % 2 = 0
+    · by_cases hx : x = r
+      · subst hx; simp [hy, ok_bind]
+      · have : ((x : Int) != (r : Int)) = true := by simp only [bne_iff_ne, ne_eq]; omega
+        simp [hy, hx, this, ok_bind]
+    · simp [hy, ok_bind]
+
+theorem gen_schnorr_sign (sha256 : Bytes → Bytes) (msg sk aux : Bytes) :
+    Gen.schnorr_sign sha256 msg sk aux = schnorrSign sha256 msg sk aux := by
+  have hn := n_pos
+  unfold Gen.schnorr_sign schnorrSign
+  simp -zeta only [throw_eq_error, error_bind]
+  simp only [gen_int_from_bytes, ok_bind]
+  have l1 : ((Py.len msg != (32 : Int)) = true) ↔ msg.length ≠ 32 := len_ne msg 32
+  have l3 : ((Py.len aux != (32 : Int)) = true) ↔ aux.length ≠ 32 := len_ne aux 32
+  by_cases h1 : msg.length ≠ 32
+  · rw [if_pos (l1.2 h1), if_pos h1]
+  rw [if_neg (fun h => h1 (l1.1 h)), if_neg h1]
+  generalize ofBE sk = d0
+  rw [nI, GI, tag_aux, tag_nonce, tag_challenge]
+  have hr : ((!(decide ((1 : Int) ≤ (d0 : Int)) && decide ((d0 : Int) ≤ ((n : Nat) : Int) - 1))) = true) ↔
+      ((!decide (1 ≤ d0 ∧ d0 ≤ n - 1)) = true) := by
+    have : ((1 : Int) ≤ (d0 : Int) ∧ (d0 : Int) ≤ ((n : Nat) : Int) - 1) ↔ (1 ≤ d0 ∧ d0 ≤ n - 1) := by omega
+    by_cases hh : 1 ≤ d0 ∧ d0 ≤ n - 1
+    · have h' := this.2 hh; simp [hh, h'.1, h'.2]
+    · have h' : ¬ ((1 : Int) ≤ (d0 : Int) ∧ (d0 : Int) ≤ ((n : Nat) : Int) - 1) := fun x => hh (this.1 x)
+      simp only [hh, decide_false, Bool.not_false, iff_true, Bool.not_eq_true', Bool.and_eq_false_iff, decide_eq_false_iff_not]
+      by_cases a : (1 : Int) ≤ (d0 : Int)
+      · right; exact fun b => h' ⟨a, b⟩
+      · left; exact a
+  by_cases h2 : (!decide (1 ≤ d0 ∧ d0 ≤ n - 1)) = true
+  · rw [if_pos (hr.2 h2), if_pos h2]
+  rw [if_neg (fun h => h2 (hr.1 h)), if_neg h2]
+  have hd0 : 1 ≤ d0 ∧ d0 ≤ n - 1 := by
+    by_cases hh : 1 ≤ d0 ∧ d0 ≤ n - 1
+    · exact hh
+    · exact absurd (by simp [hh]) h2
+  by_cases h3 : aux.length ≠ 32
+  · rw [if_pos (l3.2 h3), if_pos h3]
+  rw [if_neg (fun h => h3 (l3.1 h)), if_neg h3]
+  rw [gen_point_mul, ok_bind]
+  cases hP : mul G d0 with
+  | none => rfl
+  | some a =>
+    obtain ⟨px, py⟩ := a
+    simp only [castP_some, Option.isSome_some, Bool.not_true, Bool.false_eq_true, if_false]
+    rw [show (some ((px : Int), (py : Int)) : Option (Int × Int)) = castP (some (px, py)) from rfl, gen_has_even_y]
+    simp only [ok_bind]
+    have ed : (if (py % 2 == 0) = true then (d0 : Int) else ((n : Nat) : Int) - (d0 : Int))
+        = (((if (py % 2 == 0) = true then d0 else n - d0 : Nat)) : Int) := by
+      split
+      · rfl
+      · omega
+    rw [ed, gen_bytes_from_int]
+    generalize (if (py % 2 == 0) = true then d0 else n - d0) = d
+    cases bytesFromInt d with
+    | error e => rw [error_bind, error_bind]
+    | ok db =>
+      conv => lhs; rw [ok_bind]
+      conv => rhs; rw [ok_bind]
+      rw [gen_tagged, ok_bind, gen_xor, ok_bind, gen_bytes_from_point]
+      cases bytesFromInt px with
+      | error e => rw [error_bind, error_bind]
+      | ok pb =>
+        conv => lhs; rw [ok_bind]
+        conv => rhs; rw [ok_bind]
+        rw [gen_tagged, ok_bind]
+        generalize ofBE (taggedHash sha256 "BIP0340/nonce" (schnorrXor db (taggedHash sha256 "BIP0340/aux" aux) ++ pb ++ msg)) = h
+        rw [← Int.natCast_emod]
+        have hk : h % n < n := Nat.mod_lt _ hn
+        generalize h % n = k0 at *
+        have hz : (((k0 : Int) == 0) = true) ↔ k0 = 0 := by simp
+        by_cases hk0 : k0 = 0
+        · rw [if_pos (hz.2 hk0), if_pos hk0]
+        rw [if_neg (fun hh => hk0 (hz.1 hh)), if_neg hk0, gen_point_mul, ok_bind]
+        cases hR : mul G k0 with
+        | none => rfl
+        | some b =>
+          obtain ⟨rx, ry⟩ := b
+          simp only [castP_some, Option.isSome_some, Bool.not_true, Bool.false_eq_true, if_false]
+          rw [show (some ((rx : Int), (ry : Int)) : Option (Int × Int)) = castP (some (rx, ry)) from rfl, gen_has_even_y]
+          simp only [ok_bind]
+          rw [gen_bytes_from_point]
+          cases bytesFromInt rx with
+          | error e => rw [error_bind, error_bind]
+          | ok rb =>
+            conv => lhs; rw [ok_bind]
+            conv => rhs; rw [ok_bind]
+            rw [gen_tagged, ok_bind]
+            generalize ofBE (taggedHash sha256 "BIP0340/challenge" (rb ++ pb ++ msg)) = eh
+            have ek : (if (!(ry % 2 == 0)) = true then ((n : Nat) : Int) - (k0 : Int) else (k0 : Int))
+                = (((if (!(ry % 2 == 0)) = true then n - k0 else k0 : Nat)) : Int) := by
+              split
+              · omega
+              · rfl
+            rw [ek, ← Int.natCast_emod, ← Int.natCast_mul, ← Int.natCast_add, ← Int.natCast_emod, gen_bytes_from_int]
+            cases bytesFromInt (((if (!(ry % 2 == 0)) = true then n - k0 else k0) + eh % n * d) % n) with
+            | error e =>
+              conv => lhs; rw [ok_bind, error_bind]
+              conv => rhs; rw [error_bind]
+            | ok sb =>
+              conv => lhs; rw [ok_bind, ok_bind]
+              conv => rhs; rw [ok_bind]
+              rw [gen_schnorr_verify]
+end bip340
 
 end GenSchnorr
